@@ -1,7 +1,7 @@
 (* C11 - Every unicast Subscribe gets exactly one correct Ack or Nack.  Function-level theorems over every world;
    the transmission of what is queued is C15.  NOT proved end-to-end through the loop; checked on every run. *)
 From PS Require Import Lib.Base Generated.Consts Model.SdTypes Model.Config Model.Session Model.StackTypes Model.Stack
-  Proofs.StackOpsProofs.
+  Proofs.StackOpsProofs Model.Skel Generated.LogicGen Proofs.GenSkel.
 
 Theorem C11_ack_echoes : forall e ttl, e_val e < 1048576 ->
   let a := to_ack_entry (from_subscribe_entry e) ttl in
@@ -31,9 +31,21 @@ Theorem C11_multicast_ignored : forall e a w, e_type e = ET_Subscribe ->
   sd_message_received (mkSd [e] [] false true 0) a true w = w.
 Proof. exact multicast_subscribe_ignored. Qed.
 
+(* the control flow of ServiceInstance.handle_subscribe in the model IS the one translated from the source text on every
+   run: not running / not matching -> no answer from this instance; TTL 0 -> the store's stop; otherwise the store's
+   refresh and then exactly one of Ack (listener accepted) / Nack (NakSubscription) *)
+Theorem C11_handle_subscribe_is_the_translated_source : forall e a i w ins,
+  get_inst i w = Some ins ->
+  let accepted := snd (store_refresh (SSubs i) (sb_ttl (from_subscribe_entry e)) a (KSub (from_subscribe_entry e)) w) in
+  let '(acts, r) := gen_inst_handle_subscribe (match in_task ins with None => true | Some _ => false end)
+                      (match matches_subscribe (in_service ins) e with Ok true => true | _ => false end) e accepted in
+  fold_left (run_sub_act e a i) acts (Some w) = Some (fst (inst_handle_subscribe e a i w)) /\ r = snd (inst_handle_subscribe e a i w).
+Proof. exact inst_handle_subscribe_is_the_translated_source. Qed.
+
 Print Assumptions C11_ack_echoes.
 Print Assumptions C11_no_match_one_nack.
 Print Assumptions C11_matching_instance_answers_once.
 Print Assumptions C11_other_instances_untouched.
 Print Assumptions C11_stop_subscribe_no_answer.
 Print Assumptions C11_multicast_ignored.
+Print Assumptions C11_handle_subscribe_is_the_translated_source.
